@@ -345,7 +345,7 @@ func inRels(p *Prog, f *ssa.Function, rels []string) bool {
 // K9: frozen exceptions, one named construct each, with reason.
 var k9 = map[string]string{
 	"go@publisher.createSubscription/send/s.unsubscribech": "counted drain: publisher.run receives exactly one unsubscribe per registered subscription (in its loop or in the post-loop drain) before it may return",
-	"publisher.run/recv/s.unsubscribech":                  "counted drain: one message per registered subscription; every registered subscription's watcher sends once after the subscription is done, and every subscription is stopped by the publisher's ShuttingDown()",
+	"publisher.run/recv/s.unsubscribech":                   "counted drain: one message per registered subscription; every registered subscription's watcher sends once after the subscription is done, and every subscription is stopped by the publisher's ShuttingDown()",
 }
 
 func inLoop(f *ssa.Function, b *ssa.BasicBlock) bool {
@@ -1402,19 +1402,19 @@ func isLifetimeTie(f *ssa.Function, u *ssa.UnOp) bool {
 func checkCallersVTA(c *Ctx) {
 	rule := "T-WHO(vta)"
 	targets := map[string][]string{
-		"_cache.doSync":                        {"_cache.run", "_cache.doRefilter"},
-		"_cache.doUpdate":                      {"_cache.run"},
-		"_cache.doRefilter":                    {"_cache.run"},
-		"_cache.doList":                        {"_cache.run"},
-		"_subscription.send":                   {"controller.distributeEvents", "publisher.distributeEvent"},
-		"filterSubscription.distributeEvents":  {"filterSubscription.run"},
-		"publisher.distributeEvent":            {"publisher.run"},
-		"publisher.createSubscription":         {"publisher.run"},
-		"controller.distributeEvents":          {"controller.run"},
-		"handler.OnInitialize":                 {"monitor.run"},
-		"handler.OnCreate":                     {"monitor.run"},
-		"handler.OnUpdate":                     {"monitor.run"},
-		"handler.OnDelete":                     {"monitor.run"},
+		"_cache.doSync":                       {"_cache.run", "_cache.doRefilter"},
+		"_cache.doUpdate":                     {"_cache.run"},
+		"_cache.doRefilter":                   {"_cache.run"},
+		"_cache.doList":                       {"_cache.run"},
+		"_subscription.send":                  {"controller.distributeEvents", "publisher.distributeEvent"},
+		"filterSubscription.distributeEvents": {"filterSubscription.run"},
+		"publisher.distributeEvent":           {"publisher.run"},
+		"publisher.createSubscription":        {"publisher.run"},
+		"controller.distributeEvents":         {"controller.run"},
+		"handler.OnInitialize":                {"monitor.run"},
+		"handler.OnCreate":                    {"monitor.run"},
+		"handler.OnUpdate":                    {"monitor.run"},
+		"handler.OnDelete":                    {"monitor.run"},
 	}
 	g := c.P.VTA()
 	for name, allowed := range targets {
@@ -1697,7 +1697,9 @@ func checkNotRunningErrors(c *Ctx) {
 				}
 			}
 			last := pa.End.Results[len(pa.End.Results)-1]
-			isNotRunning := termContains(last, func(x *Term) bool { return (x.K == "load" || x.K == "global") && strings.Contains(x.Key(), "ErrNotRunning") })
+			isNotRunning := termContains(last, func(x *Term) bool {
+				return (x.K == "load" || x.K == "global") && strings.Contains(x.Key(), "ErrNotRunning")
+			})
 			if arm == "" {
 				ok, detail = false, "a path returns without going through the request select (a fast path that bypasses the actor: the request is never applied)"
 			}
@@ -1786,6 +1788,52 @@ func checkNotRunningErrors(c *Ctx) {
 	c.check(nsend >= 10, "T-CHAN(request-sync)", "actor-channel-sends/sites", "-", fmt.Sprintf("%d sends on actor channel fields", nsend), fmt.Sprintf("only %d sends on actor channel fields found (anchor lost?)", nsend))
 }
 
+// checkRequestChannelPairing: each request method hands its request to the channel its actor's
+// loop serves for that request (frozen pairing; `Reset()` sending on the stop channel would
+// stop the ticker for good).
+func checkRequestChannelPairing(c *Ctx) {
+	rule := "T-SHAPE(request-api)"
+	pairs := [][2]string{
+		{"_ticker.Reset", "resetch"}, {"_ticker.Stop", "stopch"},
+		{"_watcher.reset", "resetch"}, {"_watcher.events", "evtch"},
+		{"filterSubscription.Refilter", "refilterch"}, {"_subscription.send", "inch"},
+		{"_cache.sync", "syncch"}, {"_cache.update", "updatech"}, {"_cache.refilter", "refilterch"}, {"_cache.List", "listch"}, {"_cache.Get", "getch"},
+	}
+	for _, pr := range pairs {
+		fn := c.mustFunc("", pr[0])
+		if fn == nil {
+			continue
+		}
+		ok, n := true, 0
+		for _, pa := range pathsOf(c, fn) {
+			for _, e := range pa.Effects {
+				if e.Kind != "select" && e.Kind != "send" {
+					continue
+				}
+				if e.Kind == "send" {
+					if e.Addr != nil && e.Addr.K == "field" && e.Addr.A[0].K == "param" {
+						n++
+						if !e.Addr.IsRecvField(pr[1]) {
+							ok = false
+						}
+					}
+					continue
+				}
+				for _, st := range e.Sel {
+					if st.Send == nil || st.Chan.K != "field" {
+						continue
+					}
+					n++
+					if !st.Chan.IsRecvField(pr[1]) {
+						ok = false
+					}
+				}
+			}
+		}
+		c.check(ok && n > 0, rule, pr[0]+"/sends-on-"+pr[1], c.P.fnPos(fn), "", pr[0]+" does not hand its request to ."+pr[1]+" (and only to it): the actor would take it for a different request")
+	}
+}
+
 // checkCtorChannelCapacities: the request/hand-off channels the actors'
 // protocols rely on keep their capacity: rendezvous channels stay unbuffered
 // (a buffered tick or reset channel lets a stale message survive the handler
@@ -1799,10 +1847,10 @@ func checkCtorChannelCapacities(c *Ctx) {
 		"_cache.syncch": "0", "_cache.updatech": "0", "_cache.refilterch": "0", "_cache.getch": "0", "_cache.listch": "0",
 		"publisher.subscribech": "0", "publisher.unsubscribech": "0",
 		"_lister.resultch": "0",
-		"_ticker.nextch": "0", "_ticker.resetch": "0", "_ticker.stopch": "0", "_ticker.donech": "0",
+		"_ticker.nextch":   "0", "_ticker.resetch": "0", "_ticker.stopch": "0", "_ticker.donech": "0",
 		"_watcher.resetch": "0", "_watcher.evtch": "0",
 		"_watchSession.outch": bufLit,
-		"controller.readych": "0",
+		"controller.readych":  "0",
 	}
 	seen := map[string]bool{}
 	for _, f := range c.P.SrcFuncs("") {
